@@ -759,6 +759,13 @@ pub fn run_conc_full(trace: &Trace, scratch: PathBuf, verbose: bool, known_open:
                     }
                     let out = exec_op(store, op, enc);
                     ctl.release_writer_if_held(t);
+                    if let (Op::Store(e), Outcome::Store(StoreOutcome::Ok(off))) = (op, &out) {
+                        // hold a reference to what was just stored (C15)
+                        if let Ok(ev) = store.get_event_by_offset(*off) {
+                            let rz = ctl.resizes.load(std::sync::atomic::Ordering::SeqCst);
+                            held.lock().unwrap().push((e.id, *off, ev.as_bytes().as_ptr() as usize, bytes_val(ev.as_bytes()), rz));
+                        }
+                    }
                     let ret = ctl.step();
                     records.lock().unwrap().push(OpRecord { thread: t, idx: i, op: op.clone(), invoke, ret, out });
                 }
@@ -875,7 +882,11 @@ pub fn run_conc_full(trace: &Trace, scratch: PathBuf, verbose: bool, known_open:
         let flen_now = ctl.resizes.load(std::sync::atomic::Ordering::SeqCst);
         for (id, off, addr, val, flen) in held.lock().unwrap().iter() {
             stats.inc("ref_checks");
-            if let Ok(e) = store.get_event_by_offset(*off) {
+            let fresh = store.get_event_by_offset(*off);
+            if fresh.is_err() && ref_finding.is_none() {
+                ref_finding = Some(Finding { clause: "ref-unreadable".into(), props: vec!["C15", "C04"], detail: format!("offset {off} of the reference held to {} is no longer readable", short(id)), op_index: 0 });
+            }
+            if let Ok(e) = fresh {
                 let addr_now = e.as_bytes().as_ptr() as usize;
                 if addr_now != *addr {
                     if flen_now != *flen {
